@@ -58,7 +58,12 @@ ASSUMPTIONS = [
     "thread schedules are those CPython produces under a 1 us switch interval on this machine: sampling, not enumeration; "
     "the Lean theorems quantify over all schedules of the modelled atomic steps.",
     "PEP440Parser.parse (classmethod cache) and the lru_cache in spdx/helpers.py are exercised by the result oracle only, "
-    "not by the event trace.",
+    "not by the event trace; for the latter the model statement is memo_transparent_load_licenses (one key) and "
+    "license_by_id only reads the table (license_setdefault_not_congruent shows what registering on lookup would break).",
+    "Seeded classes named by theorems (why the check must catch them): shared_stack_interferes (one recursion stack for "
+    "all threads), firstDev_cache_not_congruent and wildcard_text_cache_not_congruent (caches keyed by Version equality, "
+    "which ignores trailing release zeros while the text does not), memo_not_transparent_without_congr (coarser key), "
+    "memo_needs_stack_purity / stackPure_false_in_general (stack-dependent values), license_setdefault_not_congruent.",
 ]
 
 WORKER = str(core.VERIF / "vp" / "c20_worker.py")
